@@ -178,7 +178,7 @@ func runR051(c *core.Ctx) {
 				return true
 			}
 			v, ok := inf.Uses[id].(*types.Var)
-			if !ok || v.IsField() || seenObj[v] || v.Pos() >= frag[0].Pos() || v.Pos() < fd.Pos() {
+			if !ok || v.IsField() || seenObj[v] || core.ObjPos(v) >= frag[0].Pos() || core.ObjPos(v) < fd.Pos() {
 				return true
 			}
 			seenObj[v] = true
